@@ -12,8 +12,8 @@ Families (one work item = one (family, policy head / critic kind, batch size N, 
   temp  sac_exploration_loss, EntropyControl.update
 
 Loss values are compared with float64 numpy references computed from the same forward passes
-(|a-b| <= 1e-5 max(1,|b|)); gradients with `nnx.grad` of an independently written objective,
-leaf-wise rtol 2e-4 / atol 1e-6.  The additive constants of ppo_loss (value coefficient,
+(|a-b| <= 1e-5 max(1,|b|,largest summand)); gradients with `nnx.grad` of an independently written
+objective, leaf-wise rtol 2e-4 / atol 1e-6 (+ 8 eps32 x the largest reference gradient entry, see gclose).  The additive constants of ppo_loss (value coefficient,
 entropy-bonus coefficient) are hyper-parameters the property does not fix; they are measured from
 the implementation at a calibration point where the (N,)-(N,1) question cannot arise.
 """
@@ -76,7 +76,7 @@ ASSUMPTIONS = [
     "log pi, entropy, sample and Q are taken from the repo's own policy heads / critics (the same forward "
     "passes): this check is about how the objectives combine them, C13 is about the heads themselves; PPO "
     "cases whose policy head's entropy() raises on the batch (GaussianPolicy, N != 2) are counted and skipped",
-    "ppo_loss = policy term + c_v * value term - c_e * mean entropy with constants c_v > 0, c_e >= 0 that the "
+    "ppo_loss = policy term + c_v * value term - c_e * mean entropy with constants c_v > 0 and c_e that the "
     "property does not fix: they are measured from the implementation (softmax actor, (N,) critic, zero "
     "advantages) and reported in the evidence",
     "mrq_policy_loss: the documented activation regulariser is an allowed additive term; value and gradient "
@@ -97,7 +97,7 @@ K_PPO_FAV = "favoured-side-clipped-sample-has-policy-gradient"
 K_PPO_UNCL = "policy-gradient-of-unclipped-samples"
 K_PPO_VT = "value-term-not-per-sample-squared-error"
 K_PPO_LEAK = "critic-gradient-depends-on-policy-term"
-K_PPO_COEF = "value-or-entropy-coefficient-has-wrong-sign"
+K_PPO_COEF = "value-term-coefficient-not-positive"
 K_UPD_OTHER = "update-changed-non-actor-component"
 K_UPD_STEP = "update-step-not-along-actor-gradient"
 K_TEMP = "alpha-moves-in-wrong-direction"
@@ -248,6 +248,26 @@ def gnorm(g):
     return float(np.sqrt(sum(float(np.sum(x * x)) for x in grads_leaves(g))))
 
 
+def gclose(ta, tb, rtol=2e-4, atol=1e-6, scale=0.0):
+    """Leaf-wise gradient comparison, |a-b| <= atol + rtol |b| + 8 eps32 G element-wise, where G is the
+    largest magnitude in the whole reference tree: float32 back-propagation through a layer whose
+    gradient is ~G leaves rounding noise ~eps32*G in the (possibly much smaller, cancelling) gradients
+    of the layers below it (observed: G = 623, noise 5e-6 on entries of size 0.016)."""
+    la, lb = grads_leaves(ta), grads_leaves(tb)
+    if len(la) != len(lb):
+        return False
+    G = max([float(np.max(np.abs(y))) for y in lb if y.size] + [float(scale)])
+    slack = atol + 8 * num.EPS32 * G
+    return all(x.shape == y.shape and bool(np.all(np.abs(x - y) <= slack + rtol * np.abs(y))) for x, y in zip(la, lb))
+
+
+def vclose(a, b, scale=0.0, rtol=1e-5):
+    """float32 value vs float64 reference: |a-b| <= rtol max(1,|b|,scale); scale = the largest summand
+    of the mean (a float32 mean of terms ~S carries rounding ~eps32*S however small the result is)."""
+    a, b = f64(a), f64(b)
+    return a.shape == b.shape and bool(np.all(np.isfinite(a))) and bool(np.all(np.abs(a - b) <= rtol * np.maximum(np.maximum(1.0, np.abs(b)), scale)))
+
+
 def params_leaves(mod):
     return [np.array(x) for x in jax.tree_util.tree_leaves(nnx.state(mod, nnx.Param))]
 
@@ -290,12 +310,12 @@ def work_pg(item, col):
         key = (item["name"], entry) + tuple(case) if nontriv else None
         want = -np.mean(w64 * lp)
         col.tick(1, key)
-        value_ok = num.close(val, want)
+        value_ok = vclose(val, want, float(np.max(np.abs(w64 * lp))))
         if not value_ok:
             col.violation(SIG.format(entry, K_VALUE), dict(base, case=case, got=float(val), want=want, weights=w64, logp=lp))
         gref = ref_grad(policy, obs, act, f32(w64))
         col.tick(1, key)
-        if not num.tree_close(grad, gref):
+        if not gclose(grad, gref):
             # right value but wrong gradient with a parameter-sharing baseline: the weights were differentiated
             kind = kind_grad if value_ok else K_GRAD
             col.violation(SIG.format(entry, kind), dict(base, case=case, weights=w64, got_norm=gnorm(grad), want_norm=gnorm(gref)))
@@ -389,7 +409,7 @@ def ppo_calibrate(item, col):
     ce, cv = -l0 / H, l1 - l0
     ce, cv = round(ce, 6), round(cv, 6)
     col.tick(1)
-    if not (cv > 0 and ce >= 0):
+    if not cv > 0:  # the sign/size of the entropy coefficient is a free hyper-parameter
         col.violation(SIG.format("ppo_loss", K_PPO_COEF), dict(c_v=cv, c_e=ce, l0=l0, l1=l1, entropy=H))
         return None
     col.set("ppo_measured_coefficients", dict(c_v=cv, c_e=ce))
@@ -438,20 +458,20 @@ def work_ppo(item, col):
         want = cv * per_sample - ce * Hm
         col.tick(1, key)
         col.outcome("ppo_value_cases_where_mean_over_NxN_pairs_differs_from_per_sample_mean", int(differs))
-        if not num.close(lval, want):
+        if not vclose(lval, want, float(np.max((R - V) ** 2))):
             col.violation(
                 SIG.format(entry, K_PPO_VT),
                 dict(base, what="loss value at zero advantages", returns=R, values=V, critic_output_shape=list(np.shape(critic(obs))), got=float(lval), want=want, per_sample_mse=per_sample, mean_over_all_pairs=pairwise, c_v=cv, c_e=ce, mean_entropy=Hm),
             )
         rga, rgc = r_grad(actor, critic, lp32, obs, act, zeros, R32, 0.2, no_mask, cv, ce)
         col.tick(1, key)
-        if not num.tree_close(gc, rgc):
+        if not gclose(gc, rgc):
             col.violation(
                 SIG.format(entry, K_PPO_VT),
                 dict(base, what="critic gradient", returns=R, values=V, critic_output_shape=list(np.shape(critic(obs))), got_norm=gnorm(gc), want_norm=gnorm(rgc)),
             )
         col.tick(1)
-        if not num.tree_close(ga, rga):  # zero advantages: only the entropy bonus reaches the actor
+        if not gclose(ga, rga):  # zero advantages: only the entropy bonus reaches the actor
             col.violation(SIG.format(entry, K_PPO_SAME), dict(base, what="zero advantages", got_norm=gnorm(ga), want_norm=gnorm(rga)))
 
     # ---- policy term: placements x advantages x clip (returns fixed, critic gradient must not move)
@@ -486,12 +506,12 @@ def work_ppo(item, col):
                 want = -float(np.mean(s))
                 got = float(lval) - l_base
                 col.tick(1, key)
-                if not abs(got - want) <= 2e-5 * max(1.0, abs(want), abs(l_base)):
+                if not abs(got - want) <= 2e-5 * max(1.0, abs(want), abs(l_base), float(np.max(np.abs(s)))):
                     col.violation(SIG.format(entry, K_PPO_PV), dict(base, **case, ratios=r64, got=got, want=want))
                 # actor gradient
                 rga, _ = r_grad(actor, critic, old32, obs, act, f32(A), R32, clip, jnp.asarray(fav), cv, ce)
                 col.tick(1, key)
-                if not num.tree_close(ga, rga):
+                if not gclose(ga, rga):
                     if fav.any():
                         kind = K_PPO_FAV
                     elif all(p == 0 for p in place):
@@ -503,11 +523,11 @@ def work_ppo(item, col):
                     # every sample clipped on its favoured side: only the entropy bonus is left
                     col.tick(1, key)
                     col.outcome("ppo_cases_all_samples_clipped_on_favoured_side")
-                    if not num.tree_close(ga, ga_base) or not num.tree_close(ga, rga):
+                    if not gclose(ga, ga_base) or not gclose(ga, rga):
                         col.violation(SIG.format(entry, K_PPO_FAV), dict(base, **case, what="all samples clipped, gradient != entropy-bonus gradient", got_norm=gnorm(ga), entropy_only_norm=gnorm(ga_base)))
                 # critic gradient independent of the policy term
                 col.tick(1)
-                if not num.tree_close(gc, gc_base):
+                if not gclose(gc, gc_base):
                     col.violation(SIG.format(entry, K_PPO_LEAK), dict(base, **case))
                 col.outcome("ppo_cases_where_max_instead_of_min_would_change_the_objective", int(outside.any()))
                 col.outcome("ppo_cases_with_favoured_side_clipped_sample", int(fav.any()))
@@ -531,7 +551,7 @@ def sgd_update_check(col, entry, base, update, actor, others, g_ref, N):
     after = params_leaves(actor)
     want = [b - g for b, g in zip(before, grads_leaves(g_ref))]
     col.tick(1, (base["item"], entry, base.get("pseed"), base.get("batch"), base.get("key"), "step"))
-    if not num.tree_close(after, want, rtol=2e-4, atol=2e-6):
+    if not gclose(after, want, atol=2e-6, scale=max(float(np.max(np.abs(g))) for g in grads_leaves(g_ref))):
         col.violation(SIG.format(entry, K_UPD_STEP), dict(base))
     for k, m in others.items():
         col.tick(1)
@@ -652,10 +672,10 @@ def work_dpg(item, col):
         col.outcome("dpg_reference_gradient_nonzero", int(nz))
         col.outcome("dpg_cases_where_a_sign_flip_would_change_value", int(abs(want) > 1e-4))
         col.tick(1, key)
-        if np.shape(val) != () or not num.close(val, want):
+        if np.shape(val) != () or not vclose(val, want, float(np.max(np.abs(np.concatenate((qa, qb)))))):
             col.violation(SIG.format(entry, K_VALUE), dict(base, got=f64(val), want=want, q1=qa, q2=qb))
         col.tick(1, key)
-        if not num.tree_close(g, gref):
+        if not gclose(g, gref):
             col.violation(SIG.format(entry, K_GRAD), dict(base, got_norm=gnorm(g), want_norm=gnorm(gref)))
         if update is not None:
             sgd_update_check(col, upd_entry, base, update, actor, others, gref, N)
@@ -703,10 +723,10 @@ def work_sac(item, col):
                 nz = gnorm(gref) > 1e-6
                 ck = (item["name"], ps, ki, al, base["alpha_is_array"]) if nz else None
                 col.tick(1, ck)
-                if np.shape(val) != () or not num.close(val, want):
+                if np.shape(val) != () or not vclose(val, want, float(np.max(np.abs(np.concatenate((al * lp, qa, qb)))))):
                     col.violation(SIG.format(entry, K_VALUE), dict(base, got=f64(val), want=want, logp=lp, q1=qa, q2=qb))
                 col.tick(1, ck)
-                if not num.tree_close(g, gref):
+                if not gclose(g, gref):
                     col.violation(SIG.format(entry, K_GRAD), dict(base, got_norm=gnorm(g), want_norm=gnorm(gref)))
                 col.outcome("sac_reference_gradient_nonzero", int(nz))
                 col.outcome("sac_cases_where_max_instead_of_min_Q_would_change_value", int(np.any(qa != qb)))
